@@ -38,14 +38,14 @@ CLAIMED = {
          "4 C07, 5", "LIVENESS IS NOT DECIDED: 'always woken again', 'reaches SUCCEEDED/FAILED after finitely many invocations', 'no invocation runs forever', and the real-time clause about a branch already running when the last sibling parked (needs fairness / real-time scheduling; outside contract-based verification)"),
  "C08": ("the id functions verified against a spec hash of (parent id, index); exactly one atomic counter increment per operation; every operation method of DurableContext and the branch executor link (id, parent id, child context parent) as the statement requires; string lemma: position text is injective",
          "4 C08", "blake2b collision freedom (cryptographic assumption); several user threads sharing one context (U)"),
- "C09": ("completion policy: ExecutionCounters against spec functions (linear real arithmetic); lemma over the REAL __init__ mapping, stop decision and classifier: the reported reason is consistent with item statuses and policy; items/replay faithful (generic pair of branches); pool size, one submission per branch, no join, empty input",
+ "C09": ("completion policy: ExecutionCounters against spec functions (linear real arithmetic); lemma over the REAL __init__ mapping, stop decision and classifier: the reported reason is consistent with item statuses and policy; items/replay faithful (generic pair of branches); pool size, one submission per branch, no join, empty input; exact arithmetic of the percentage test (rounding provenance); publish order of branch results for lock-free readers; from_items wiring; BatchResult accessors on a generic item",
          "4 C09", "'returns exactly when decided' and the concurrency bound as real-time behaviour of ThreadPoolExecutor (S)"),
- "C17": ("Logger gate and extras; track_replay flip against a quantified spec over an arbitrary operations map; every operation method calls track_replay(id) exactly after a normal return; initial status for every pagination; boundary lemma with one known finding (region excluded, rest proved)",
+ "C17": ("Logger gate and extras; track_replay flip against a quantified spec over an arbitrary operations map; every operation method calls track_replay(id) exactly after a normal return; initial status for every pagination; boundary lemma; lock discipline of the replay status and the operations map (syntactic, AST)",
          "4 C17", "the sequential-program induction from per-call contracts to whole programs (U)"),
- "C19": ("Owicki-Gries at atomic-action granularity: each `with self._lock` block of the real OrderedLock methods preserves the ticket-queue invariant from ANY invariant state (hence under every interleaving of any number of threads); mutual exclusion + FIFO follow from the invariant at the point acquire returns; breaking on any exception class; counter returns k to the k-th holder",
+ "C19": ("Owicki-Gries at atomic-action granularity: each `with self._lock` block of the real OrderedLock methods preserves the ticket-queue invariant from ANY invariant state (hence under every interleaving of any number of threads); mutual exclusion + FIFO follow from the invariant at the point acquire returns; breaking on any exception class; counter returns k to the k-th holder; reader-view invariant at every Event.set for the lock-free re-read in acquire; the counter's caller uses the returned value",
          "4 C19", "fairness of threading.Lock and termination of critical sections (liveness); atomicity assumption G"),
- "C20": ("every wire codec pair executed symbolically on fully symbolic well-typed objects; N(from(to(x))) == N(x) per field, dict and JSON routes, plus presence of every option in the wire form",
-         "4 C20", "float rounding of millisecond conversion (A)"),
+ "C20": ("every wire codec pair executed symbolically on fully symbolic well-typed objects; N(from(to(x))) == N(x) per field, dict and JSON routes, plus presence of every option in the wire form; frame: decoders leave the wire dictionary unchanged; provenance obligation on the millisecond conversion (one known finding)",
+         "4 C20", "float rounding of the millisecond conversion is a recorded known finding (C20.timestamp.exact_millis); the round-trip obligations are proved under A"),
 }
 checks = []
 for p in props:
